@@ -1,2 +1,127 @@
-/- C02 property theorems (under construction) -/
-import Decaf.Model.Exec
+/-
+C02 — Decoding accepts exactly the canonical encodings of the specification.
+
+`sr` is ANY square-root routine meeting the four-case contract (`Model.SRContract`; C09 proves it for the two
+routines of the repository), so every statement holds for both builds.  `DecSpec s P` is the relational form of
+ristretto.sage's `decodeSpec` (see `Spec/Encoding.lean`).  Byte strings are lists of naturals < 256.
+The nine entry points of the Rust API all reduce to `decodeSlice` / `decode32` (that forwarding is one line each and
+is validated by the correspondence run over every entry point × every near-miss class).
+-/
+import Decaf.Lemmas.RoundTrip
+
+namespace C02
+open Model Edwards Decaf
+
+variable {sr : SR}
+
+/-- the top-three-bits pre-check is implied by canonicity -/
+theorem top_bits_of_lt (bytes : List ℕ) (hv : leBytes bytes < q) : bytes.getD 31 0 / 32 = 0 := by
+  have := getD_mul_le_leBytes bytes 31
+  have hq := q_lt_two_pow_253
+  by_contra hc
+  have h32 : 32 ≤ bytes.getD 31 0 := by
+    by_contra hlt
+    exact hc (Nat.div_eq_of_lt (not_le.mp hlt))
+  have : 32 * 256 ^ 31 ≤ leBytes bytes := le_trans (Nat.mul_le_mul_right _ h32) this
+  have e : (32 : ℕ) * 256 ^ 31 = 2 ^ 253 := by norm_num
+  omega
+
+/-- `decode32` is `decodeField` on the integer value when that value is canonical, and an encoding error otherwise -/
+theorem decode32_eq (bytes : List ℕ) :
+    decode32 sr bytes = if leBytes bytes < q then decodeField sr (leBytes bytes) else .error .encoding := by
+  unfold decode32 fqFromBytesChecked
+  by_cases hv : leBytes bytes < q
+  · have ht := top_bits_of_lt bytes hv
+    rw [if_pos hv, ht]
+    simp [hv]
+  · simp only [hv, if_false]
+    by_cases ht : (bytes.getD 31 0 / 32 != 0) = true
+    · rw [if_pos ht]
+    · rw [if_neg ht]
+
+/-- **acceptance**: a 32-byte string is accepted iff its value is below q and the specification decodes it
+(non-negative s with square discriminant; in particular s = q-1 and every s ≥ q, every string with a high bit
+set and every negative s are rejected) -/
+theorem decode_accepts_iff (h : SRContract sr) (bytes : List ℕ) :
+    (∃ c, decode32 sr bytes = .ok c) ↔ leBytes bytes < q ∧ ∃ pt : E, DecSpec (leBytes bytes) pt := by
+  rw [decode32_eq]
+  by_cases hv : leBytes bytes < q
+  · simp only [hv, if_true, true_and]
+    rcases decodeField_spec h _ hv with ⟨herr, hno⟩ | ⟨c, pt, hok, _, hspec, _⟩
+    · constructor
+      · rintro ⟨c, hc⟩; rw [herr] at hc; exact absurd hc (by simp)
+      · intro hex; exact absurd hex hno
+    · exact ⟨fun _ => ⟨pt, hspec⟩, fun _ => ⟨c, hok⟩⟩
+  · simp [hv]
+
+/-- **result**: what is returned represents the point the specification defines (which is on the curve and in the
+even subgroup), with Z = 1 -/
+theorem decode_eq_spec (h : SRContract sr) (bytes : List ℕ) {c : Ext} (hc : decode32 sr bytes = .ok c) :
+    ∃ pt : E, ERepr c pt ∧ DecSpec (leBytes bytes) pt ∧ Point.IsEven pt ∧ c.Z = 1 ∧ c.X < q := by
+  rw [decode32_eq] at hc
+  by_cases hv : leBytes bytes < q
+  · simp only [hv, if_true] at hc
+    rcases decodeField_spec h _ hv with ⟨herr, _⟩ | ⟨c', pt, hok, hr, hspec, hev, hx, hz⟩
+    · rw [herr] at hc; exact absurd hc (by simp)
+    · rw [hok] at hc
+      have : c' = c := by injection hc
+      subst this
+      exact ⟨pt, hr, hspec, hev, hz, hx⟩
+  · simp [hv] at hc
+
+/-- the specification determines the returned element: any two specified results are in the same coset -/
+theorem spec_unique {s : ℕ} {p p' : E} (h : DecSpec s p) (h' : DecSpec s p') : Point.Coset p p' := by
+  obtain ⟨hx, hy⟩ := DecodesTo.unique h h'
+  rw [Point.coset_iff_coords]
+  rcases hy with hy | ⟨hs0, hy⟩
+  · exact Or.inl ⟨hx, hy⟩
+  · right
+    refine ⟨?_, hy⟩
+    obtain ⟨_, t, _, _, hx1, _⟩ := h
+    rw [hx, hx1, hs0, mul_zero, zero_div, neg_zero]
+
+/-- **never a panic, never anything but an encoding error** -/
+theorem decode_error_is_encoding (h : SRContract sr) (bytes : List ℕ) {e : DecErr} (he : decode32 sr bytes = .error e) :
+    e = .encoding := by
+  rw [decode32_eq] at he
+  by_cases hv : leBytes bytes < q
+  · simp only [hv, if_true] at he
+    rcases decodeField_spec h _ hv with ⟨herr, _⟩ | ⟨c', pt, hok, _⟩
+    · rw [herr] at he; injection he with he; exact he.symm
+    · rw [hok] at he; exact absurd he (by simp)
+  · simp only [hv, if_false] at he; injection he with he; exact he.symm
+
+/-- slices of any other length are length errors; slices of length 32 are decoded as above -/
+theorem decodeSlice_length (bytes : List ℕ) (hl : bytes.length ≠ 32) : decodeSlice sr bytes = .error .length := by
+  unfold decodeSlice; simp [hl]
+
+theorem decodeSlice_32 (bytes : List ℕ) (hl : bytes.length = 32) : decodeSlice sr bytes = decode32 sr bytes := by
+  unfold decodeSlice; simp [hl]
+
+/-! ### the named rejection classes -/
+
+theorem rejects_noncanonical (bytes : List ℕ) (hv : q ≤ leBytes bytes) : decode32 sr bytes = .error .encoding := by
+  rw [decode32_eq]; simp [not_lt.mpr hv]
+
+theorem rejects_negative (h : SRContract sr) (bytes : List ℕ) (hneg : leBytes bytes % 2 = 1) : ¬ ∃ c, decode32 sr bytes = .ok c := by
+  rw [decode_accepts_iff h]
+  rintro ⟨hv, pt, hn, _⟩
+  have : paritySign.neg ((leBytes bytes : ℕ) : Fq) = true := by
+    rw [← isNeg_eq hv]; unfold isNeg; simp [hneg]
+  rw [this] at hn; exact absurd hn (by simp)
+
+/-- s = -1 (the bytes of q-1) is rejected: its discriminant is -4d, a non-square -/
+theorem rejects_minus_one (h : SRContract sr) (bytes : List ℕ) (hv : leBytes bytes = q - 1) : ¬ ∃ c, decode32 sr bytes = .ok c := by
+  rw [decode_accepts_iff h]
+  rintro ⟨_, pt, _, t, ht, _⟩
+  have hs : (((leBytes bytes : ℕ)) : Fq) = -1 := by rw [hv]; exact cast_q_sub_one
+  apply one_sub_sq_ne_zero_of_root ht
+  rw [hs]; ring
+
+/-- non-vacuity: the encoding of the generator, 8, is accepted; q-1, q and 1 are not (kernel evaluation) -/
+example : (decode32 sqrtRatioMin (toLeBytes 8 32)).toOption.isSome = true := by decide +kernel
+example : (decode32 sqrtRatioMin (toLeBytes (q - 1) 32)).toOption.isSome = false := by decide +kernel
+example : (decode32 sqrtRatioArk (toLeBytes q 32)).toOption.isSome = false := by decide +kernel
+example : (decode32 sqrtRatioArk (toLeBytes 1 32)).toOption.isSome = false := by decide +kernel
+
+end C02
